@@ -96,6 +96,18 @@ def c18_b(ctx: Ctx):
                 out.append(ctx.ok(R, f, a, "the index is always restricted to the subset"))
             else:
                 out.append(ctx.inc(R, f, a, f"subset guard: {atoms}"))
+    uses = [n for n in body_nodes(f) if isinstance(n, ast.Attribute) and n.attr == "_sp_cache"]
+    if uses:
+        out.append(ctx.viol(R, f, uses[0], "detect_schema consults the state point cache: the cache keeps entries of removed jobs, so a subset that names a removed job contributes keys and values "
+                            "of a job that no longer exists", construct=DS + "|no-cache"))
+    else:
+        out.append(ctx.ok(R, f, f.node, "the selected jobs are validated against the freshly built index, not against the state point cache", construct=DS + "|no-cache", nontrivial=False))
+    inter = [n for n in body_nodes(f) if isinstance(n, ast.Call) and isinstance(n.func, ast.Attribute) and n.func.attr == "intersection" and "index" in canon(n)]
+    if "subset" in f.params:
+        if inter:
+            out.append(ctx.ok(R, f, inter[0], "a subset is intersected with the ids of the index built from the workspace", construct=DS + "|subset-intersection"))
+        else:
+            out.append(ctx.inc(R, f, f.node, "subset is not intersected with the index keys", construct=DS + "|subset-intersection"))
     cb = f.nested.get("_collect_by_type")
     if cb is not None:
         ok = any(isinstance(n, ast.Subscript) and canon(n.slice) == "type(v)" for n in body_nodes(cb))
@@ -173,6 +185,8 @@ def c18_d(ctx: Ctx):
             out.append(ctx.inc(R, f, f.node, "per-job difference not recognised"))
     elif not gets:
         out.append(ctx.inc(R, f, f.node, "diff_jobs is not the recognised set algebra over flattened pairs"))
+    from .lints import nested_builder
+    out += nested_builder(ctx, R)
     if "job.statepoint()" in txt or "job.sp()" in txt or "cached_statepoint" in txt:
         out.append(ctx.ok(R, f, f.node, "diffs are computed from each job's own state point", nontrivial=False))
     return out
